@@ -34,6 +34,17 @@ PATHS = ['/', '/a', '/a/', '/a/b', '/a/b/', '/a/7', '/b', '/b/q', '/q', '/q/', '
 METHODS = ['GET', 'HEAD', 'POST', 'PUT', 'DELETE', 'get', 'post', 'FOO', 'OPTIONS']
 METHOD_SETS = [None, None, ['GET'], ['POST'], ['get', 'PUT'], ['DELETE', 'POST'], ['HEAD'], ['GET', 'POST', 'PUT']]
 OUTCOMES = ['ok', 'ok', 'ok', 'brk404', 'brk503', 'brk409_ret', 'brk400_ret', 'nb403_raise', 'nb404_ret', 'nb404_raise', 'nb403_ret', 'boom']
+def make_render_factory(ftag):
+    """A render factory as an Application would carry it: render argument -> render function."""
+    def factory(arg):
+        def render(context):
+            h = {'X-R': context['tag'], 'X-Route-Res': context['route_res'], 'X-App-Res': context['app_res'],
+                 'X-Rendered-By': ftag, 'X-Render-Arg': str(arg)}
+            return Response('rendered:' + context['tag'], headers=h)
+        return render
+    return factory
+
+
 STATUS = {'ok': 200, 'brk404': 404, 'brk503': 503, 'brk409_ret': 409, 'brk400_ret': 400, 'nb403_raise': 403,
           'nb404_ret': 404, 'nb404_raise': 404, 'nb403_ret': 403, 'boom': 500}
 
@@ -43,6 +54,9 @@ def make_endpoint(tag, out):
     def ep(_route, _application):
         h = {'X-R': tag, 'X-Route-Res': ','.join(sorted(_route.resources)),
              'X-App-Res': ','.join(sorted(_application.resources))}
+        if out == 'ctx':
+            # a render context: needs a renderer made by some application's render factory
+            return {'tag': tag, 'route_res': h['X-Route-Res'], 'app_res': h['X-App-Res']}
         if out == 'ok':
             return Response('ok:' + tag, headers=h)
         if out == 'brk404':
@@ -118,6 +132,10 @@ def dispatch_model(table, path, method):
         branch = e['pattern'].endswith('/')
         if branch and norm(p, True) != p and e.get('mode', 'redirect') == 'redirect':
             return {'status': 302, 'tag': None, 'allow': None, 'location': norm(p, True)}
+        if e['out'] == 'ctx':
+            if e.get('render'):
+                return {'status': 200, 'tag': e['tag'], 'allow': None, 'location': None, 'entry': e}
+            return {'status': 500, 'tag': None, 'allow': None, 'location': None}     # context without a renderer
         st = STATUS[e['out']]
         if e['out'].startswith('nb'):
             last_nb = (st, e['tag'])
@@ -136,6 +154,7 @@ def observe(ex):
     return {'status': ex.code, 'tag': ex.header('X-R'),
             'allow': set(x.strip() for x in allow.split(',') if x.strip()) if allow is not None else None,
             'location': ex.header('Location'), 'route_res': ex.header('X-Route-Res'), 'app_res': ex.header('X-App-Res'),
+            'rendered_by': ex.header('X-Rendered-By'),
             'escaped': type(ex.escaped).__name__ if ex.escaped is not None else None}
 
 
